@@ -34,6 +34,7 @@ RULE = ("case = (byte stream, way of cutting it into arrivals) on a TCP or WebSo
 
 WRAPS = ["coap_socket_read", "coap_socket_write", "select", "connect"]
 PREDICT_ALWAYS = {0, 226, 227}
+REPEATABLE = {1, 4, 8, 11, 15, 20}      # If-Match, ETag, Location-Path, Uri-Path, Uri-Query, Location-Query
 PLAIN_ITEMS = {"X", "C", "S", "OOB", "M:UNDEF", "FUEL", "BROKEN"}
 
 
@@ -75,6 +76,11 @@ def predictable(it, client=False):
         return None
     if client and 1 <= c <= 31 and token_len(it) > 8:
         return None                  # client session: longer request tokens are refused (4.00 / RST)
+    nums = item_opts(it)
+    if c < 224 and any(nums.count(n) > 1 for n in set(nums) if n not in REPEATABLE):
+        # a non-repeatable option occurs twice (only mutated frames do that): the PDU parser accepts
+        # it, coap_dispatch (coap_option_check_repeatable) does not hand it to a handler
+        return None
     if c in PREDICT_ALWAYS:
         return True
     if c == 225:
